@@ -11,8 +11,14 @@ theorems remove the corresponding entries from the trusted glue:
   normalised string gives exactly the encodings of the model's item-level tokens, with UAX #15 NFKD
   and with the model of x/text's NFKD, for every Go string.
 
-Still tied by execution only: that two Go strings are equal iff their decoded item lists are (map
-lookup by string key), and x/text's behaviour on bytes vs the item-level model. -/
+* `str_scalar_roundtrip`, `str_key_equality`: a list of Unicode scalar values is what its own
+  encoding decodes to, so for every **valid UTF-8** Go string the map lookup `mapping[word]` — which
+  compares byte strings — is the model's comparison of item lists (tokens of the normalised string
+  against list words), with either normaliser.
+
+Still tied by execution only: string equality for tokens containing invalid bytes (no list word
+contains one; the harness's invalid-UTF-8 classes exercise it), and x/text's behaviour on bytes vs
+the item-level model. -/
 namespace Bip39V
 open Unicode
 
@@ -27,6 +33,12 @@ theorem str_split_bytes (b : Bytes) :
     splitBytes 0x20 (utf8 (nfkd (decodeItems b))) = (splitOn 0x20 (nfkd (decodeItems b))).map utf8 :=
   split_normalised_bytes b
 
+theorem str_scalar_roundtrip (s : Str) (hs : Scalar s) : decodeItems (utf8 s) = s := decodeItems_utf8 s hs
+
+theorem str_key_equality (b : Bytes) (hb : Scalar (decodeItems b)) (w : Str) (hw : Scalar w) :
+    (∀ t ∈ splitOn 0x20 (xnfkd (decodeItems b)), (utf8 t = utf8 w ↔ t = w)) ∧
+    (∀ t ∈ splitOn 0x20 (nfkd (decodeItems b)), (utf8 t = utf8 w ↔ t = w)) := key_equality b hb w hw
+
 /-- non-vacuity / sanity: an invalid byte, a 2-, 3- and 4-byte sequence and an overlong form -/
 example : decodeItems [0x61, 0xFF, 0xC3, 0xA9, 0xE3, 0x80, 0x80, 0xF0, 0x9F, 0x98, 0x80, 0xC0, 0x80] =
     [0x61, 0x1100FF, 0xE9, 0x3000, 0x1F600, 0x1100C0, 0x110080] := by decide
@@ -35,4 +47,6 @@ example : decodeItems [0x61, 0xFF, 0xC3, 0xA9, 0xE3, 0x80, 0x80, 0xF0, 0x9F, 0x9
 #print axioms str_decoded_wf
 #print axioms str_split_items
 #print axioms str_split_bytes
+#print axioms str_scalar_roundtrip
+#print axioms str_key_equality
 end Bip39V
